@@ -843,6 +843,46 @@ class World:
 
 
 _MISSING = object()
+_AFTER_STORE = {}
+
+
+def _after_store_lines():
+	"""'file.py:line' of the lines that come right after a statement storing into an attribute
+	(self.x = ..., trx.x -= ..., del self.x) in the traced toolkit files (of the current tree)."""
+	key = toolkit.TK_DIR
+	if key not in _AFTER_STORE:
+		import ast
+		import os
+		out = set()
+		for fn in um_race.TRACE_FILES:
+			try:
+				src = open(os.path.join(toolkit.TK_DIR, fn)).read()
+				tree = ast.parse(src)
+			except Exception:
+				continue
+			stores = set()
+			for node in ast.walk(tree):
+				tg = []
+				if isinstance(node, ast.Assign):
+					tg = node.targets
+				elif isinstance(node, (ast.AugAssign, ast.AnnAssign)):
+					tg = [node.target]
+				elif isinstance(node, ast.Delete):
+					tg = node.targets
+				flat = []
+				for t in tg:
+					flat.extend(t.elts if isinstance(t, (ast.Tuple, ast.List)) else [t])
+				if any(isinstance(t, ast.Attribute) for t in flat):
+					stores.add(getattr(node, "end_lineno", node.lineno))
+			lines = src.split("\n")
+			for ln in stores:
+				# the next line that holds code
+				k = ln + 1
+				while k <= len(lines) and (not lines[k - 1].strip() or lines[k - 1].strip().startswith("#")):
+					k += 1
+				out.add("%s:%d" % (fn, k))
+		_AFTER_STORE[key] = out
+	return _AFTER_STORE[key]
 
 
 def canonical(history):
@@ -882,7 +922,7 @@ class UmEngine:
 		return ["trxcon profile disabled: the driver could not be built (%s)" % um_trxcon.build_error()[-200:]] if um_trxcon.build_error() else []
 
 	def generate(self, seed, prop, tier):
-		share = {"C03": 0.55, "C12": 0.2, "C05": 0.15}.get(prop, 0.0)
+		share = {"C03": 0.5, "C12": 0.3, "C05": 0.15}.get(prop, 0.0)
 		tshare = {"C05": 0.15, "C10": 0.05}.get(prop, 0.0)
 		pr = rng_for(seed, "profile").random()
 		if tshare and share <= pr < share + tshare and um_trxcon.available():
@@ -891,10 +931,10 @@ class UmEngine:
 			plan["seed"] = seed
 			return plan
 		if share and pr < share:
-			plan = um_race.build_race_plan(rng_for(seed, "plan"), tier)
+			plan = um_race.build_race_plan(rng_for(seed, "plan"), tier, prop)
 			plan["seed"] = seed
 			return plan
-		r2 = {"C02": 0.3, "C10": 0.3, "C18": 0.3, "C05": 0.15, "C12": 0.08}.get(prop, 0.0)
+		r2 = {"C02": 0.3, "C10": 0.3, "C18": 0.3, "C05": 0.25, "C12": 0.1, "C03": 0.15}.get(prop, 0.0)
 		if r2 and share + tshare <= pr < share + tshare + r2:
 			# what the recipients see while a command or an arrival races a tick (um_race2.py)
 			plan = um_race2.build_race2_plan(rng_for(seed, "plan"), tier, prop)
@@ -1006,10 +1046,16 @@ class UmEngine:
 						by_loc.setdefault(loc, []).append(key)
 					# lines of the modules that hold the state shared by the two threads weigh more
 					locs = sorted(by_loc)
-					heavy = ("transceiver.py", "burst_fwd.py", "fake_trx.py") if plan["config"].get("race2") else ("transceiver.py", "burst_fwd.py")
+					heavy = ("transceiver.py", "burst_fwd.py", "fake_trx.py", "gsm_shared.py") if plan["config"].get("race2") else ("transceiver.py", "burst_fwd.py")
 					wts = [(6 if plan["config"].get("race2") else 3) if l.startswith(heavy) else 1 for l in locs]
+					if plan["config"].get("race2"):
+						# a multi-step update of shared state is torn right after one of its stores:
+						# lines that follow an attribute store weigh five times as much again
+						after = _after_store_lines()
+						wts = [w * (5 if l in after else 1) for w, l in zip(wts, locs)]
 					loc = srng.choices(locs, wts)[0]
 					pre.append(srng.choice(by_loc[loc]))
+
 			elif strat in ("pct2", "pct3"):
 				d = 2 if strat == "pct2" else 3
 				for wt in sorted(windows):
